@@ -149,7 +149,72 @@ CHECKS["C20"] = dict(
     technique="Coq reflection proof over translated codec terms + hostile-input run in a memory-limited child",
     ref="5/C20")
 
-NOT_APPLICABLE = {}
+_CLIENT_NOTE = ("Trusted: Coq kernel; hand-written model Client.v validated by correspondence on a real RemoteClient driven "
+                "in-package (overlay pkg/client/verif_export.go: real handleMessage, processHandler, runRequests goroutine, "
+                "public calls, Ready, generateSession); hashes are ids; the server is the harness; TCP, timer accuracy and the "
+                "real server are outside the model.")
+CHECKS["C16"] = dict(
+    text="Machine-checked proofs (Coq): the routing code serves exactly the first outstanding request that a server "
+         "message answers, where `answers` is the protocol's meaning written independently of the code; with distinct "
+         "keys that request is unique (never another call's); a call returns what the answering message means "
+         "(value / reject code); a time-out deregisters only its own request; GetOutputs returns per outpoint and in "
+         "order that outpoint's value or an error (loop with fill-ahead proved equal to the direct specification); "
+         "the executable monitor never objects to the model's trace on any history (props/C16.v, 5 theorems). "
+         "Correspondence: real runRequests goroutine, real handleMessage and real public calls (all ten kinds) on "
+         "generated interleavings, plus the registration/response select race.",
+    note=_CLIENT_NOTE,
+    technique="Coq refinement proof (routing = protocol meaning) + model/implementation correspondence + trace monitor",
+    ref="5/C16")
+CHECKS["C17"] = dict(
+    text="Machine-checked proofs (Coq) over the model of handleMessage / addHandlerMessage / processHandler / Ready: on "
+         "every history (any server stream, any handler-queue capacity incl. a queue that stays full, reconnects, ready "
+         "declarations) the monitor never objects (only the expected id is queued, reported next id = last queued + 1, "
+         "handlers receive the queue in order, nothing is lost while there is room); a message with another id changes "
+         "nothing; if the application always declares ready with the reported next id, the ids delivered so far "
+         "followed by the queued ones are exactly 1..next-1 (props/C17.v). Correspondence: the real functions on "
+         "generated streams with small queue capacities and reconnects.",
+    note=_CLIENT_NOTE,
+    technique="Coq invariant proof over an executable model + model/implementation correspondence + trace monitor",
+    ref="5/C17")
+CHECKS["C18"] = dict(
+    text="Machine-checked proofs (Coq): the connection becomes accepted iff the accept message is genuine (session key "
+         "derived from the configured server key and this connection's hash, signature by that key over key, counts and "
+         "that hash - symbolic cryptography); forged accepts change nothing and fail the connection; before acceptance "
+         "no server message reaches handlers, pending requests or the message id; and for the send machine (sendMessage, "
+         "sendMessages, runConnection teardown, carried message) as a transition system: in every reachable state of "
+         "every interleaving every non-handshake message was written to a connection whose handshake had completed at "
+         "that moment, and only written requests are acknowledged (props/C18.v, 7 theorems). Correspondence: real "
+         "handleMessage with really forged AcceptRegister messages (7 kinds, real keys), and real runConnection / "
+         "sendMessages / sendMessage / Ready over an in-memory connection with slow close.",
+    note=_CLIENT_NOTE + " ECDSA unforgeability and key derivation are idealised; the send-machine scenarios are "
+         "deterministic schedules with a 25 ms settle time, the theorems cover all interleavings.",
+    technique="Coq invariant proofs (symbolic crypto; transition system of the send path) + model/implementation correspondence + trace monitors",
+    ref="5/C18")
+CHECKS["C04"] = dict(
+    text="Machine-checked proofs (Coq) over a symbolic-hash model of the streaming merkle tree with proof registration "
+         "and pruning as ProcessBlock uses it, of convertMerkleProof and of the client-side verifier: for every block "
+         "size and every set / position of registered transactions (pairwise distinct txids) the streaming root equals "
+         "the textbook root, every returned proof carries the transaction's true index and is accepted by the verifier "
+         "against that root, proofs come back in registration order (alignment), and a body whose root differs from "
+         "the header's is rejected with chain and notifications untouched (props/C04.v). Correspondence: real "
+         "Node.ProcessBlock on blocks of 1..33 transactions with chosen relevant positions, previously seen or not, "
+         "corrupted bodies; proofs compared structurally and run through the real client verifier.",
+    note="Trusted: Coq kernel; SHA-256d idealised as a free constructor (injective, never a leaf); the dependency's "
+         "wire.MerkleTree is modelled and validated by correspondence, not verified; hand-written model validated by "
+         "correspondence on a real Node.",
+    technique="Coq proof over a symbolic merkle model + model/implementation correspondence + trace monitor",
+    ref="5/C04")
+
+NOT_APPLICABLE = {
+    "C01": "not yet claimed in this revision: the liveness model (peer + time-outs) is in progress; the safety half is covered by C02/C12 theorems",
+    "C19": "not yet claimed in this revision: shutdown protocol model in progress",
+}
+for _k in list(NOT_APPLICABLE):
+    if _k in CHECKS:
+        del NOT_APPLICABLE[_k]
+if not os.path.exists(os.path.join(VERIF, "gen", "c04.py")) or not os.path.exists(os.path.join(VERIF, "coq", "props", "C04.v")):
+    CHECKS.pop("C04", None)
+    NOT_APPLICABLE["C04"] = "check under construction in this revision"
 
 
 def main():
@@ -175,7 +240,7 @@ def main():
             "enable": "go build -tags verif -overlay work/overlay.json (add-only files under /verif/harness/overlay are "
                       "overlaid onto non-existent paths of /repo at build time; /repo itself carries no hook code)",
             "baseline_off_cmd": BASELINE_OFF,
-            "source_commits": [],
+            "source_commits": [],  # the harness lives in the overlay; /repo carries no hook code
             "add_only": True,
         },
         "engines": [
